@@ -2,5 +2,5 @@
    ExtrOcamlBasic only; N, positive, nat and Z stay Coq datatypes. *)
 Require Extraction.
 Require Import ExtrOcamlBasic.
-From Verif Require Import Bytes WireM LookupM LookupWireM.
-Extraction "files_model.ml" c22_lookupfunc c22_lookup c22_import.
+From Verif Require Import Bytes WireM LookupM LookupWireM FilesFSM FilesWireM.
+Extraction "files_model.ml" c22_lookupfunc c22_lookup c22_import c23_history c23_valid.
